@@ -138,6 +138,20 @@ def buffer_forms(out):
 
                 async def func(args, calls=calls, loop=loop):
                     calls.append((round(loop.time() / TICK), sorted(args)))
+                if len(gaps) == 4:
+                    # the wrapped callable is an object with attributes of its own (its I/O timeout, say): they are
+                    # its business, the buffer's `timeout` option is the one given to the decorator
+                    class Sender:
+                        timeout = None
+
+                        def __init__(self, inner):
+                            self.inner = inner
+                            self.timeout = 3 * T * TICK + 5
+                            self.retries = 2
+
+                        async def __call__(self, args):
+                            await self.inner(args)
+                    func = Sender(func)
                 try:
                     buf = (buffer_until_timeout(func, timeout=T * TICK) if form == 'direct'
                            else buffer_until_timeout(timeout=T * TICK)(func))
